@@ -217,6 +217,8 @@ pub enum Behaviour {
     NotExtending(u8),
     /// one field of the valid answer replaced by this JSON
     FieldReplaced(String, String),
+    /// signed by another key AND one field (outside the signed message) replaced
+    WrongSigField(String, String),
 }
 
 #[derive(Debug, Clone)]
@@ -451,7 +453,7 @@ fn serve(state: &Arc<Mutex<TowerState>>, s: &mut TcpStream, path: &str, body: &V
                 match user {
                     Some(u) => {
                         let mut r = RegistrationReceipt::new(u, slots, start, expiry);
-                        r.sign(&if *b == Behaviour::WrongSig { crate::world::user_sk(99) } else { sk });
+                        r.sign(&if matches!(b, Behaviour::WrongSig | Behaviour::WrongSigField(..)) { crate::world::user_sk(99) } else { sk });
                         json!({"user_id": user_hex, "available_slots": slots, "subscription_start": start, "subscription_expiry": expiry, "subscription_signature": r.signature().unwrap()})
                     }
                     None => json!({"error": "bad user id", "error_code": 5}),
@@ -464,7 +466,7 @@ fn serve(state: &Arc<Mutex<TowerState>>, s: &mut TcpStream, path: &str, body: &V
                     (st.slots, st.start_block, st.expiry)
                 };
                 let mut r = AppointmentReceipt::new(user_sig, start);
-                r.sign(&if *b == Behaviour::WrongSig { crate::world::user_sk(99) } else { sk });
+                r.sign(&if matches!(b, Behaviour::WrongSig | Behaviour::WrongSigField(..)) { crate::world::user_sk(99) } else { sk });
                 json!({"locator": body["appointment"]["locator"], "start_block": start, "signature": r.signature().unwrap(), "available_slots": slots, "subscription_expiry": expiry})
             };
             match b {
@@ -472,7 +474,7 @@ fn serve(state: &Arc<Mutex<TowerState>>, s: &mut TcpStream, path: &str, body: &V
                     let k = if path == "/register" { "subscription_signature" } else { "signature" };
                     v[k] = json!(m);
                 }
-                Behaviour::FieldReplaced(field, j) => {
+                Behaviour::FieldReplaced(field, j) | Behaviour::WrongSigField(field, j) => {
                     let repl: Value = serde_json::from_str(j).unwrap_or(Value::Null);
                     if repl.is_null() && j != "null" {
                         v.as_object_mut().unwrap().remove(field);
